@@ -175,7 +175,10 @@ def _verify(repo, ctab, spec, res):
                         E.obligations.append(_mk(spec, 'ensures/%s[case=%s]' % (en, cn), s, z3.Implies(cp, f), trace=s.trace, entry=entry))
                     E.obligations.append(_mk(spec, 'ensures/%s[otherwise]' % en, s, z3.Implies(z3.Not(z3.Or(*preds)), f), trace=s.trace, entry=entry))
                 else:
-                    E.obligations.append(_mk(spec, 'ensures/' + en, s, f, trace=s.trace, entry=entry))
+                    o_ = _mk(spec, 'ensures/' + en, s, f, trace=s.trace, entry=entry)
+                    o_.ctx = ctx
+                    o_.engine = E
+                    E.obligations.append(o_)
             ctx0 = SpecCtx(entry, old=entry)
             for rs in spec.raises:
                 if rs.iff:
